@@ -17,6 +17,7 @@ for m in sorted(glob.glob(os.path.join(V, "seeded", "*", "meta.json"))):
     d = json.load(open(m))
     pid, k = name.split("-", 1)
     k0 = k.rstrip("b")
+    final = f"/tmp/final_{name}.log"
     r2 = k.startswith("r2-")
     if r2:
         kk = k[3:]
@@ -30,19 +31,25 @@ for m in sorted(glob.glob(os.path.join(V, "seeded", "*", "meta.json"))):
     det = d.get("detected_by")
     def verdict(path):
         t = open(path).read()
-        kind = re.search(r"# property \S+ violated on the implementation: (\S+)", t)
-        viol = re.findall(r"^=== (C\d+) with.*?\n(?:(VIOLATION[^\n]*)\n)?(C\d+ quick: [^\n]*)", t, re.M)
         out = []
-        for chk, v, line in viol:
-            nd = re.search(r"(\d+) correspondence disagreements", line).group(1)
+        for blk in re.split(r"(?m)^(?==== )", t):
+            mchk = re.match(r"=== (C\d+) with", blk)
+            if not mchk: continue
+            chk = mchk.group(1)
+            v = re.search(r"(?m)^VIOLATION[^\n]*", blk)
+            line = re.search(r"(?m)^C\d+ quick: [^\n]*", blk)
+            kind = re.search(r"# property \S+ violated on the implementation: (\S+)", blk)
+            nd = re.search(r"(\d+) correspondence disagreements", line.group(0)).group(1) if line else "?"
             if v:
-                nf = "no-failing-input-found" in v
+                nf = "no-failing-input-found" in v.group(0)
                 what = ("VIOLATION no-failing-input-found (broken obligation named in the replay file)" if nf
                         else "VIOLATION with concrete replay" + (", monitor kind " + kind.group(1) if kind else ""))
                 out.append(f"bin/check {chk}: {what}; {nd} correspondence disagreements")
             else:
                 out.append(f"bin/check {chk}: exit 0 (missed)")
         return out
+    if os.path.exists(final):
+        log = final
     if log and os.path.exists(log):
         vs = verdict(log)
         hits = [v for v in vs if "VIOLATION" in v]
